@@ -724,6 +724,68 @@ def ctor_agreement(facts, res, R="C04.6.constructors-agree"):
                 res.violation(R, tbf.rel(facts.path_of(c)), c["qname"], "copy:%s" % mname, c["l"][1], "the copy constructor initialises '%s' from `%s`" % (mname, t))
 
 
+def pole_divisions(facts, res, R="C04.9.finite-at-centre-and-axis"):
+    """Particles may sit exactly at the centre of their leaf (radius 0 relative to it) or on its vertical axis (sine of the polar angle 0).
+    In the leaf operators and in the spherical-coordinates constructor every division by the radius, by the sine of the polar angle, or
+    by a local holding one of them, is under a test of that quantity (any comparison in an enclosing `if` / conditional); an unguarded one
+    yields inf / NaN for those positions, and a NaN multipole spreads to every particle that receives the cell's far field."""
+    n = 0
+    sites = []
+    sph = [m for m in facts.methods_of("FSpherical") if m["kind"] == "CXXConstructor" and m["params"] and tbf.body(m) is not None and not m.get("inst")]
+    ops = [m for m in facts.methods_of(K) if m["name"] in ("P2M", "L2P") and tbf.body(m) is not None and not m.get("inst")]
+    if not sph or len(ops) < 2:
+        raise AnalysisBroken("FSpherical position constructor / %s::P2M, L2P not found" % K)
+    for m in sph + ops:
+        body = tbf.body(m)
+        tbf.link_parents(body)
+        decls = {v["did"]: v for v in walk(body) if v.get("k") == "VarDecl"}
+
+        def quantity(e, depth=0):
+            """'radius' / 'sine' when the expression is (a local holding) the radius or the sine of the polar angle"""
+            out = set()
+            for z in walk(e):
+                k = z.get("k")
+                if k in ("CallExpr", "CXXMemberCallExpr") and tbf.callee_name(z) in ("getR", "getSinTheta"):
+                    out.add("radius" if tbf.callee_name(z) == "getR" else "sine")
+                elif k in ("MemberExpr", "CXXDependentScopeMemberExpr") and m.get("cls") == "FSpherical" and z.get("name") in ("r", "sinTheta"):
+                    out.add("radius" if z["name"] == "r" else "sine")
+                elif k == "DeclRefExpr" and z.get("did") in decls and kids(decls[z["did"]]) and depth < 3 and "const" in decls[z["did"]].get("t", ""):
+                    out |= quantity(kids(decls[z["did"]])[0], depth + 1)
+            return out
+        for x in walk(body):
+            den = None
+            if x.get("k") == "BinaryOperator" and x.get("op") == "/":
+                den = kids(x)[1]
+            elif x.get("k") == "CompoundAssignOperator" and x.get("op") == "/=":
+                den = kids(x)[1]
+            if den is None:
+                continue
+            q = quantity(den)
+            if not q:
+                continue
+            n += 1
+            guards = set()
+            for a in tbf.ancestors(x):
+                if a.get("k") in ("IfStmt", "ConditionalOperator"):
+                    c0 = [y for y in kids(a) if y.get("k") != "DeclStmt"][0]
+                    guards |= quantity(c0)
+            for qq in sorted(q - guards):
+                sites.append((m, x, qq))
+    seen = set()
+    for m, x, qq in sites:
+        key = "unguarded-division:%s:%s" % (m["name"] if m.get("cls") != "FSpherical" else "FSpherical", qq)
+        if key in seen:
+            continue          # one report per (function, quantity): the other divisions by the same quantity share the cause
+        seen.add(key)
+        res.violation(R, tbf.rel(facts.path_of(x)), m["qname"], key, x["l"][1],
+                      "`%s` divides by the %s without any test of it: a particle exactly %s gives 0/0 or x/0 - a non-finite %s"
+                      % (facts.ntext(x)[:60], "radius of the particle relative to the leaf centre" if qq == "radius" else "sine of the particle's polar angle",
+                         "at the centre of its leaf" if qq == "radius" else "on the vertical axis through the centre of its leaf",
+                         "multipole, which reaches every particle that receives this cell's far field" if m["name"] != "L2P" else "potential / force for that particle"))
+    res.instance(R, "divisions", "src/kernels/rotationkernel", "%d divisions by the radius / the sine of the polar angle in the spherical-coordinates constructor, P2M and L2P; %d distinct unguarded (function, quantity) pairs" % (n, len(seen)))
+    return n
+
+
 def run(res, tier):
     facts = tbf.scan("core")
     res.units.append("umbrella TU 'core': FRotationKernel (table builders, 8 operators, constructors)")
@@ -781,6 +843,8 @@ def run(res, tier):
     res.rule("C04.7 level-uniform operators: the level argument of M2M / M2L / L2L only subscripts the per-level tables (no branch, loop bound or selection over the operator's cells depends on it); the kernel names no executor boundary level")
     import c05
     c05.level_uniform(facts, res, K, "C04.7.level-uniform")
+    res.rule("C04.9 finite at the centre and on the axis: in the spherical-coordinates constructor and the leaf operators every division by the particle's radius relative to the leaf centre, or by the sine of its polar angle, is under a test of that quantity")
+    res.floor("C04.9", pole_divisions(facts, res), 4, "divisions by the radius / sine of the polar angle")
     res.rule("C04.8 per-item scratch: a local array declared outside an operator's item loop and written inside it is fully redefined (copyall / setall / ...) at the top of every iteration before anything else touches it - what is computed for one child / transfer source never depends on which items came before it")
     n8 = c05.per_item_buffers(facts, res, K, "C04.8.per-item-scratch")
     res.floor("C04.8", n8, 3, "scratch arrays carried across item loops (4 on the pinned tree)")
